@@ -66,8 +66,8 @@ NLReqs(ad) == { [q |-> qq, c |-> NLState(AsmSize(ad))] : qq \in {"fint", "kT"} }
 SkF == PD("plate",  A_, R(3,2), RZero,  RZero, ROne, 3, 3, FlPrimes, LamSym, RZero, ROne, R(3,1), Zero3)
 SkG == PD("plate",  A_, R(3,2), RZero,  RZero, ROne, 2, 3, FlMixed,  LamGen, RZero, ROne, R(3,1), Zero3)   \* laminate offset
 SkC == PD("cpanel", A_, R(3,2), R(4,1), RZero, ROne, 2, 3, FlPrimes, LamSym, RZero, ROne, R(2,1), Zero3)
-SkS == PD("plate",  A_, R(3,2), RZero,  RZero, ROne, 3, 3, FlSS,     LamSym, RZero, ROne, R(3,1), Zero3)
-SkSc == PD("cpanel", A_, R(3,2), R(4,1), RZero, ROne, 2, 3, FlSS,    LamSym, RZero, ROne, R(3,1), Zero3)
+SkS == PD("plate",  A_, R(3,2), RZero,  RZero, ROne, 2, 2, FlPrimes, LamSym, RZero, ROne, R(3,1), Zero3)   \* 12, under stiffeners
+SkSc == PD("cpanel", A_, R(3,2), R(4,1), RZero, ROne, 2, 2, FlFree,  LamSym, RZero, ROne, R(3,1), Zero3)
 Bay(skin, cuts, stiffs) == [kind |-> "bay", skin |-> skin, cuts |-> cuts, stiffs |-> stiffs]
 Cuts0 == <<>>
 Cuts1 == << R(1,2) >>                                   \* non-central (b = 3/2)
@@ -81,7 +81,10 @@ ThoroughSkinBays == QuickSkinBays \cup
     { Bay(sk, cu, <<>>) : sk \in {SkF, SkC, SkG}, cu \in {Cuts0, Cuts1, Cuts1t, Cuts2, Cuts3, Cuts4} }
 SkinBays == IF Tier = "quick" THEN QuickSkinBays ELSE ThoroughSkinBays
 BayN == << R(-3,1), R(2,1), R(1,1) >>
-SkinReqs == { [q |-> "size"], [q |-> "k0"], [q |-> "kM"], [q |-> "kG0", N |-> BayN] }
+SkinForces(sk) == << <<RMul(R(1,2), sk.a), RMul(R(1,3), sk.b), R(1,1), R(-2,1), R(3,1)>>,
+                     <<sk.a, RMul(R(7,8), sk.b), R(5,2), RZero, R(-1,1)>>, <<RMul(R(1,4), sk.a), RZero, RZero, R(1,2), R(7,1)>> >>
+SkinReqs(bd) == { [q |-> "size"], [q |-> "k0"], [q |-> "kM"], [q |-> "kG0", N |-> BayN],
+                  [q |-> "fext", skin |-> SkinForces(bd.skin), forces |-> <<>>] }
 
 (* stiffeners: laminates of base / flange are used by the replay only *)
 SD(kind, ys, base, flange, mb, nb, mf, nf) ==
@@ -91,11 +94,11 @@ Y1 == R(1,2)
 Y2 == R(1,1)
 B1f  == SD("b1d", Y1, FALSE, TRUE, 0, 0, 0, 0)
 B1bf == SD("b1d", Y2, TRUE, TRUE, 0, 0, 0, 0)
-B2f  == SD("b2d", Y1, FALSE, TRUE, 0, 0, 2, 2)
-B2bf == SD("b2d", Y2, TRUE, TRUE, 0, 0, 1, 3)
-B2b  == SD("b2d", Y1, TRUE, FALSE, 0, 0, 0, 0)            \* documented as allowed; see KF_C13_Blade2DWithoutFlangeRaises
-T2a  == SD("t2d", Y1, TRUE, TRUE, 2, 1, 2, 2)
-T2b  == SD("t2d", Y2, TRUE, TRUE, 1, 2, 3, 1)
+B2f  == SD("b2d", Y1, FALSE, TRUE, 0, 0, 2, 1)           \* flange 6
+B2bf == SD("b2d", Y2, TRUE, TRUE, 0, 0, 2, 2)            \* flange 12
+B2b  == SD("b2d", Y1, TRUE, FALSE, 0, 0, 0, 0)            \* padup only (see KF_C13_Blade2DWithoutFlangeRaises)
+T2a  == SD("t2d", Y1, TRUE, TRUE, 1, 1, 2, 1)             \* base 3 + flange 6
+T2b  == SD("t2d", Y2, TRUE, TRUE, 1, 2, 2, 2)             \* base 6 + flange 12
 CutsS == << R(1,2), R(1,1) >>
 QuickStiffBays ==
     { Bay(SkS, CutsS, <<B2f, B2bf>>), Bay(SkS, CutsS, <<B2bf, B2f>>),
@@ -113,7 +116,7 @@ PartForces(sd, part, i) ==
     IN << <<RMul(R(1,2), A_), RMul(R(i, i + 1), w), R(i,1), R(-2,1), R(3,1)>>, <<RMul(R(3,4), A_), w, RZero, R(1,2), R(-i,1)>> >>
 StiffReqs(bd) ==
     { [q |-> "size"], [q |-> "place"],
-      [q |-> "fext", forces |-> Fn([i \in 1..Len(bd.stiffs) |->
+      [q |-> "fext", skin |-> SkinForces(bd.skin), forces |-> Fn([i \in 1..Len(bd.stiffs) |->
             [base |-> IF bd.stiffs[i].kind = "t2d" THEN PartForces(bd.stiffs[i], "base", i) ELSE <<>>,
              flange |-> IF OwnSize(bd.stiffs[i]) > 0 THEN PartForces(bd.stiffs[i], "flange", i + 2) ELSE <<>>]])] }
 
@@ -121,7 +124,7 @@ Defs == (IF Part \in {"asm", "all"} THEN Asms ELSE {}) \cup (IF Part \in {"nl", 
         \cup (IF Part \in {"bay", "all"} THEN SkinBays \cup StiffBays ELSE {})
 ReqsOf(d) == IF d \in NLAsms THEN NLReqs(d)
              ELSE IF d.kind = "asm" THEN AsmReqs(d)
-             ELSE IF d.stiffs = <<>> THEN SkinReqs ELSE StiffReqs(d)
+             ELSE IF d.stiffs = <<>> THEN SkinReqs(d) ELSE StiffReqs(d)
 
 VARIABLE phase
 EmitInit == AInit /\ phase = 0
